@@ -21,6 +21,8 @@ POSTFIX = {
     "flatted": ".flatted()", "partitioned": ".partitioned(1)", "chunked": ".chunked(1)", "as_const": ".as_const()",
     "broadcasted": ".broadcasted()", "transformed": ".element_transformed(std::declval<int (*)(int const&)>())",
     "begin": ".begin()", "end": ".end()", "cbegin": ".cbegin()", "cend": ".cend()", "elements": ".elements()", "home": ".home()",
+    "reindexed": ".reindexed(1)", "reindexed2": ".reindexed(1, 1)", "blocked": ".blocked(0, 1)", "stenciled": ".stenciled({0, 1})", "range": ".range({0, 1})",
+    "sliced3": ".sliced(0, 1, 1)",
     "itidx": "[0]", "ebegin": ".begin()", "eidx": "[0]", "efront": ".front()", "eback": ".back()", "cidx": "[0]",
 }
 
@@ -34,6 +36,12 @@ def expr_of(steps, base="std::declval<S>()"):
             e = "(*(" + e + "))"
         elif s == "itplus":
             e = "((" + e + ") + 1)"
+        elif s == "addrderef":
+            e = "(*(&(" + e + ")))"
+        elif s == "arrow":
+            e = "(*((" + e + ").operator->()))"
+        elif s == "rebuilt":
+            e = "rebuilt_t<decltype(" + e + ")>((" + e + ").begin(), (" + e + ").end())"
         else:
             e = "(" + e + ")" + POSTFIX[s]
     return e
@@ -65,6 +73,7 @@ def tu_source(paths):
     out = ["#include <boost/multi/array.hpp>", "#include <cstdio>", "#include <type_traits>", "#include <utility>",
            "namespace multi = boost::multi;",
            "using AR1 = multi::array<int, 1>; using AR2 = multi::array<int, 2>; using AR3 = multi::array<int, 3>; using AR4 = multi::array<int, 4>; using AR5 = multi::array<int, 5>;",
+           "template<class X> using rebuilt_t = multi::subarray<int, std::decay_t<X>::rank_v>;",
            "#define OBS(NAME, EXPR) template<class S, class = void> struct NAME { static constexpr int v = -1; }; "
            "template<class S> struct NAME<S, std::void_t<decltype(EXPR)>> { static constexpr int v = std::is_assignable_v<decltype(EXPR), int> ? 1 : 0; };",
            "#define OBSA(NAME, EXPR, FROM) template<class S, class = void> struct NAME { static constexpr int v = -1; }; "
